@@ -142,8 +142,9 @@ def okC18rec (ctx : Ctx) (acts : List (Act α)) : Bool :=
   | [] => false
   | first :: rest => firstOk && lastOk && go first false rest
 
-/-- C04(b) and C07 (single exclusions), read on the defeat action's own snapshot -/
-def okExclusions (ctx : Ctx) (acts : List (Act α)) : Bool :=
+/-- C04(b) and C07 (single exclusions), read on the defeat action's own snapshot; with `lowest := false` only the C04 clause
+    (nobody holding a quota is excluded) is judged -/
+def okExclusions (ctx : Ctx) (acts : List (Act α)) (lowest : Bool := true) : Bool :=
   let ss := snapsOf acts
   let hasQuota (v q : α) : Bool := if A.exact then A.gt v q else A.ge v q
   let rec go (prev : Act α × Snap α) (restartPending : Bool) : List (Act α × Snap α) → Bool
@@ -157,22 +158,22 @@ def okExclusions (ctx : Ctx) (acts : List (Act α)) : Bool :=
             match ctx.method with
             | .qpq =>
               match quotOfSnap cur.2 cid with
-              | some qc => hop.all (fun e => match e.2.2.2.2 with
+              | some qc => (!lowest || hop.all (fun e => match e.2.2.2.2 with
                                              | some qe => !(A.lt qe qc)
-                                             | none => true)
+                                             | none => true))
                            && !(A.gt qc cur.2.quota)
               | none => false
             | .meek =>
               match voteOfSnap cur.2 cid with
               | some vc =>
-                (hasSub cur.1.verb "certain loser"
+                (!lowest || hasSub cur.1.verb "certain loser"
                  || hop.any (fun e => hop.all (fun f => !(A.ltRaw f.2.2.1 e.2.2.1)) && A.ge (A.add e.2.2.1 cur.2.x2) vc))
                 && !(hasQuota vc cur.2.quota)
               | none => false
             | .wigm =>
               match voteOfSnap cur.2 cid with
               | some vc =>
-                (hasSub cur.1.verb "sure loser" || hasSub cur.1.verb "batch" || hasSub cur.1.verb "certain loser"
+                (!lowest || hasSub cur.1.verb "sure loser" || hasSub cur.1.verb "batch" || hasSub cur.1.verb "certain loser"
                  || hop.all (fun e => !(A.lt e.2.2.1 vc)))
                 && !(hasQuota vc cur.2.quota)
               | none => false)
